@@ -15,6 +15,7 @@ import (
 	"google.golang.org/protobuf/encoding/protowire"
 	"google.golang.org/protobuf/internal/errors"
 	"google.golang.org/protobuf/internal/protolazy"
+	"google.golang.org/protobuf/internal/verifhook"
 	"google.golang.org/protobuf/reflect/protoreflect"
 	preg "google.golang.org/protobuf/reflect/protoregistry"
 	piface "google.golang.org/protobuf/runtime/protoiface"
@@ -54,6 +55,7 @@ func UnmarshalField(m interface{}, num protowire.Number) {
 }
 
 func (mi *MessageInfo) lazyUnmarshal(p pointer, num protoreflect.FieldNumber) {
+	verifhook.LazyEnter(p.p, int32(num))
 	var f *coderFieldInfo
 	if int(num) < len(mi.denseCoderFields) {
 		f = mi.denseCoderFields[num]
@@ -78,7 +80,9 @@ func (mi *MessageInfo) lazyUnmarshal(p pointer, num protoreflect.FieldNumber) {
 	} else {
 		mi.unmarshalField(lazy.Buffer()[start:end], fp, f, lazy, lazy.UnmarshalFlags())
 	}
+	verifhook.LazyDecoded(p.p, int32(num), fp.Elem().p)
 	p.Apply(f.offset).AtomicSetPointerIfNil(fp.Elem())
+	verifhook.LazyPublished(p.p, int32(num), fp.Elem().p, p.Apply(f.offset).AtomicGetPointer().p)
 }
 
 func (mi *MessageInfo) unmarshalField(b []byte, p pointer, f *coderFieldInfo, lazyInfo *protolazy.XXX_lazyUnmarshalInfo, flags piface.UnmarshalInputFlags) error {
